@@ -21,7 +21,11 @@ SPEC = {'level': 'exploration',
             gen('vh_c61', 'up_prevector', 1500, 30000, rule='upstream fuzz target prevector, supplementary'),
             gen('vh_c61', 'up_bitdeque', 6000, 100000, rule='upstream fuzz target bitdeque, supplementary'),
             gen('vh_c61', 'up_vecdeque', 3000, 60000, rule='upstream fuzz target vecdeque, supplementary'),
-            gen('vh_c61', 'up_pool_resource', 6000, 100000, rule='upstream fuzz target pool_resource, supplementary')]}
+            gen('vh_c61', 'up_pool_resource', 6000, 100000, rule='upstream fuzz target pool_resource, supplementary'),
+        # coverage-guided libFuzzer campaign on the same target (thorough tier only; fz tree = g++ trace-pc + covshim)
+        fuzz('vh_c61', 'c61_prevector', 300, max_len=2400),
+        fuzz('vh_c61', 'c61_pool', 300, max_len=1600),
+    ]}
 
 META = {'level_text': 'Stateful generated search: operation sequences (up to 3000 operations, sizes concentrated on the inline capacity / word size / ring capacity / '
                'chunk boundaries) on prevector, VecDeque, bitdeque and the pool resource, each executed in lock-step with a standard-library model; after every '
